@@ -1173,13 +1173,10 @@ theorem kvs_permTree (cfg : Cfg) (h : NoPathOpts cfg) (hd : cfg.direct = false) 
 termination_by structural kvs
 end
 
-/-- **Permutation invariance of the verdict (whole tree).**  Keyed comparison with a composite key
-(`cfg.direct = false`, `composite_key` arbitrary, the path options at their defaults): if the composite keys
-are unique within every list of both documents, reordering the lists — at any depth, on either side — changes
-neither the verdict nor whether an exception is raised. -/
-theorem perm_invariant (cfg : Cfg) (h : NoPathOpts cfg) (hd : cfg.direct = false) {a a' b b' : Val}
+/-- the number of lines (and whether an exception is raised) is invariant, not only the verdict -/
+theorem perm_invariant_lines (cfg : Cfg) (h : NoPathOpts cfg) (hd : cfg.direct = false) {a a' b b' : Val}
     (ha : PermTree a a') (hb : PermTree b b') (hua : UniqueKeys cfg a) (hub : UniqueKeys cfg b) :
-    verdict (compareTop cfg a b) = verdict (compareTop cfg a' b') := by
+    okD (dE (compareTop cfg a b)) = okD (dE (compareTop cfg a' b')) := by
   have key := sub_permTree cfg h hd a .entry [] b a' b' ha hb hua hub
   cases ha with
   | list c hpx hlx =>
@@ -1191,7 +1188,7 @@ theorem perm_invariant (cfg : Cfg) (h : NoPathOpts cfg) (hd : cfg.direct = false
         cases c' with
         | plain => simp [compareTop]
         | n0 =>
-          simp only [compareTop, verdict_eq_okD]
+          simp only [compareTop]
           rw [key]
       | _ => simp [compareTop]
   | dict c hk =>
@@ -1203,9 +1200,37 @@ theorem perm_invariant (cfg : Cfg) (h : NoPathOpts cfg) (hd : cfg.direct = false
         cases c' with
         | plain => simp [compareTop]
         | n0 =>
-          rw [compareTop_eq_sub cfg _ _ (by simp [RootPair]), compareTop_eq_sub cfg _ _ (by simp [RootPair]),
-            verdict_eq_okD, verdict_eq_okD, key]
+          rw [compareTop_eq_sub cfg _ _ (by simp [RootPair]), compareTop_eq_sub cfg _ _ (by simp [RootPair]), key]
       | _ => simp [compareTop]
   | _ => simp [compareTop]
+
+/-- **Permutation invariance of the verdict (whole tree).**  Keyed comparison with a composite key
+(`cfg.direct = false`, `composite_key` arbitrary, the path options at their defaults): if the composite keys
+are unique within every list of both documents, reordering the lists — at any depth, on either side — changes
+neither the verdict nor whether an exception is raised. -/
+theorem perm_invariant (cfg : Cfg) (h : NoPathOpts cfg) (hd : cfg.direct = false) {a a' b b' : Val}
+    (ha : PermTree a a') (hb : PermTree b b') (hua : UniqueKeys cfg a) (hub : UniqueKeys cfg b) :
+    verdict (compareTop cfg a b) = verdict (compareTop cfg a' b') := by
+  rw [verdict_eq_okD, verdict_eq_okD, perm_invariant_lines cfg h hd ha hb hua hub]
+
+/-! ### the hypotheses are needed -/
+
+/-- composite key `id` -/
+def cexCfg : Cfg := { Cfg.default Flags.init false with ck := .many [['i', 'd']] }
+
+def cexRec (i a : Int) : Val := .dict .n0 [(['i', 'd'], .int i), (['a'], .int a)]
+
+/-- without unique keys, swapping two records of the right list flips the verdict -/
+theorem perm_needs_unique_keys_cex :
+    verdict (compareTop cexCfg (.list .n0 [cexRec 1 1, cexRec 1 2]) (.list .n0 [cexRec 1 1, cexRec 1 2])) = some true ∧
+    verdict (compareTop cexCfg (.list .n0 [cexRec 1 1, cexRec 1 2]) (.list .n0 [cexRec 1 2, cexRec 1 1])) = some false := by
+  decide
+
+/-- the key of a list-valued element is its `str`, which is not stable under permutation: reordering the
+inner list flips the verdict although all keys are unique (so `itemOk` is needed in `UniqueKeys`) -/
+theorem perm_needs_itemOk_cex :
+    verdict (compareTop cexCfg (.list .n0 [.list .n0 [.int 1, .int 2]]) (.list .n0 [.list .n0 [.int 1, .int 2]])) = some true ∧
+    verdict (compareTop cexCfg (.list .n0 [.list .n0 [.int 2, .int 1]]) (.list .n0 [.list .n0 [.int 1, .int 2]])) = some false := by
+  decide
 
 end N0.Compare
